@@ -37,7 +37,7 @@ static int cur = T_A;                      /* the thread executing */
 static const nsync_mu *mu_addr[NM];         /* mutexes seen so far */
 static int mu_owner[NM];                    /* 0 free, T_A, T_ENV */
 static int in_env;
-static int a_ops, env_site, env_ops[2], trylock_fails;   /* the concrete environment schedule of the scenario, see env_step */
+static int a_ops, env_site, env_site2, env_ops[2], trylock_fails;   /* the concrete environment schedule of the scenario, see env_step */
 static nsync_note P, N, GP, C;              /* grandparent (optional), parent, the note under test, its child (optional) */
 static int p_freed;
 
@@ -51,10 +51,23 @@ static int mu_idx (const nsync_mu *mu) {
 static void env_step (void);
 #define TOUCH(mu) __CPROVER_assert (__CPROVER_rw_ok ((mu), sizeof (*(mu))), "C09: no call touches a note (here: its lock) after that note's nsync_note_free has returned")
 
+/* the documented locking order is "parent before child": a thread that BLOCKS on a note's lock while holding the lock of one of that
+   note's children can deadlock with a thread notifying or freeing the parent (which holds the parent and locks each child in turn) */
+static int n_freed;
+static int holds_child_of (const nsync_mu *mu) {
+	nsync_note y[4]; int alive[4]; int k, r = 0;
+	y[0] = GP; y[1] = P; y[2] = N; y[3] = C;
+	alive[0] = GP != NULL; alive[1] = P != NULL && !p_freed; alive[2] = N != NULL && !n_freed; alive[3] = C != NULL;
+	for (k = 0; k < 4; k++) {
+		if (alive[k] && y[k]->parent != NULL && &y[k]->parent->note_mu == mu && mu_owner[mu_idx (&y[k]->note_mu)] == cur) r = 1;
+	}
+	return r;
+}
 void nsync_mu_lock (nsync_mu *mu) {
 	int i;
 	if (cur == T_A) env_step ();
 	TOUCH (mu);
+	if (cur == T_A) __CPROVER_assert (!holds_child_of (mu), "C09: no call blocks on a note's lock while holding the lock of one of its children (locking order parent before child: no deadlock with a notifier of the parent)");
 	i = mu_idx (mu);
 	__CPROVER_assert (mu_owner[i] != cur, "C09: no call locks a note it already holds (self-deadlock)");
 	if (mu_owner[i] != 0) __CPROVER_assume (0);   /* held by the other side: this thread would block here; the interleaving continues elsewhere */
@@ -109,11 +122,14 @@ int nsync_wait_n (void *mu, void (*lock) (void *), void (*unlock) (void *), nsyn
 static int a_kind;      /* what thread A does: 0 nsync_note_notify (n), 1 nsync_note_free (n), 2 nsync_note_new (n, ...) */
 static void env_step (void) {
 	int k;
+	int here;
 	if (in_env) return;
-	if (a_ops++ != env_site) return;
+	here = a_ops++;
+	if (here != env_site && here != env_site2) return;
 	in_env = 1; cur = T_ENV;
 	for (k = 0; k < 2; k++) {
 		int op = env_ops[k];
+		if (here != (k == 0 ? env_site : env_site2)) continue;     /* first operation at env_site, second at env_site2 (>= env_site) */
 		if (a_kind == 1) {
 			/* A frees n: by the API rule no other thread uses n itself; they may use its relatives */
 			if (op == 1 && !p_freed) nsync_note_notify (P);
@@ -134,7 +150,7 @@ static void build (int with_gp, int with_child) {
 	int i;
 	vp_reg_clear ();
 	for (i = 0; i < NM; i++) { mu_addr[i] = NULL; mu_owner[i] = 0; }
-	in_env = 1; p_freed = 0; cur = T_A; a_ops = 0;
+	in_env = 1; p_freed = 0; n_freed = 0; cur = T_A; a_ops = 0;
 	GP = with_gp ? nsync_note_new (NULL, nsync_time_no_deadline) : NULL;
 	P = nsync_note_new (GP, nsync_time_no_deadline);
 	N = nsync_note_new (P, nsync_time_no_deadline);
@@ -164,16 +180,22 @@ static void finish (void) {
 /* One group per (what A does, tree shape, does A's first trylock fail, scheduling point); the environment's operations are enumerated here. */
 void h_conc (void) {
 	int o1, o2, i;
-	for (o1 = 0; o1 < 5; o1++) for (o2 = 0; o2 < 5; o2++) {
+#ifndef VP_SITE2_MAX
+#define VP_SITE2_MAX VP_SITE        /* quick tier: both environment calls at the same scheduling point; thorough: the second one at any later point too */
+#endif
+	int s2;
+	for (s2 = VP_SITE; s2 <= VP_SITE2_MAX; s2++) for (o1 = 0; o1 < 5; o1++) for (o2 = 0; o2 < 5; o2++) {
 		if (o1 == 0 ? o2 != 0 : o2 == o1) continue;     /* (0,0): A runs alone - always completes, keeps the end of the scenario reachable */
+		if (s2 != VP_SITE && (o1 == 0 || o2 == 0)) continue;
 		if (vp_nondet_bool ()) {          /* each scenario on its own path: a cut path (a thread that would block) ends that scenario only */
-			env_ops[0] = o1; env_ops[1] = o2; trylock_fails = VP_TF; env_site = VP_SITE; a_kind = VP_AKIND;
+			env_ops[0] = o1; env_ops[1] = o2; trylock_fails = VP_TF; env_site = VP_SITE; env_site2 = s2; a_kind = VP_AKIND;
 			build (VP_SHAPE & 1, (VP_SHAPE >> 1) & 1);
 			if (a_kind == 0) {
 				nsync_note_notify (N);
 				finish ();
 			} else if (a_kind == 1) {
 				nsync_note_free (N);
+				n_freed = 1;
 				for (i = 0; i < NM; i++) __CPROVER_assert (mu_owner[i] != T_A, "C09: the call returns holding no note lock");
 				__CPROVER_assert (C == NULL || C->notified != 0 || C->parent == (p_freed ? GP : P),
 						  "C09: the children of a freed note are adopted by its parent (or were disconnected by their own notification)");
